@@ -17,7 +17,7 @@ def run(ctx):
     py = ctx.python()
     ps, ms = scopes.py_scope("C19"), scopes.module_scope("C19")
     seen = lib_guards.analyse(ctx, P, funcs=FUNCS)
-    lib_guards.presence(ctx, seen, funcs=FUNCS)
+    lib_guards.presence(ctx, seen, funcs=FUNCS, P=P)
     lib_gate.gate(ctx, P, only={"tsk_table_collection_ibd_within", "tsk_table_collection_ibd_between", "tsk_ibd_finder_init"})
     lib_ibd.counters(ctx, P)
     lib_ibd.ancestry_append(ctx, P)
